@@ -822,6 +822,22 @@ mod if_alloc {
         }
     }
 
+    #[cfg(futures_intrusive_verif)]
+    impl<MutexType: RawMutex> GenericSharedSemaphore<MutexType> {
+        /// Verification hook: the wait queue from head (newest) to tail (oldest).
+        pub fn verif_snapshot(&self, out: &mut [crate::verif::VerifNode]) -> usize {
+            self.state.lock().verif_snapshot(out)
+        }
+    }
+
+    #[cfg(futures_intrusive_verif)]
+    impl<MutexType: RawMutex> GenericSharedSemaphoreAcquireFuture<MutexType> {
+        /// Verification hook: address of the embedded wait node.
+        pub fn verif_node_addr(&self) -> usize {
+            &self.wait_node as *const _ as usize
+        }
+    }
+
     // Export parking_lot based shared semaphores in std mode
     #[cfg(feature = "std")]
     mod if_std {
@@ -844,3 +860,41 @@ mod if_alloc {
 
 #[cfg(feature = "alloc")]
 pub use self::if_alloc::*;
+
+#[cfg(futures_intrusive_verif)]
+impl SemaphoreState {
+    fn verif_snapshot(&self, out: &mut [crate::verif::VerifNode]) -> usize {
+        let mut n = 0;
+        self.waiters.verif_for_each(out.len(), |node| {
+            out[n] = crate::verif::VerifNode {
+                addr: node as *const _ as usize,
+                state: match node.state {
+                    PollState::New => 0,
+                    PollState::Waiting => 1,
+                    PollState::Notified => 2,
+                    PollState::Done => 3,
+                },
+                waker: crate::verif::waker_data(&node.task),
+                extra: node.required_permits as u64,
+            };
+            n += 1;
+        });
+        n
+    }
+}
+
+#[cfg(futures_intrusive_verif)]
+impl<MutexType: RawMutex> GenericSemaphore<MutexType> {
+    /// Verification hook: the wait queue from head (newest) to tail (oldest).
+    pub fn verif_snapshot(&self, out: &mut [crate::verif::VerifNode]) -> usize {
+        self.state.lock().verif_snapshot(out)
+    }
+}
+
+#[cfg(futures_intrusive_verif)]
+impl<'a, MutexType: RawMutex> GenericSemaphoreAcquireFuture<'a, MutexType> {
+    /// Verification hook: address of the embedded wait node.
+    pub fn verif_node_addr(&self) -> usize {
+        &self.wait_node as *const _ as usize
+    }
+}
